@@ -512,6 +512,13 @@ func checkC18(c *Ctx) {
 			elems, complete := sliceElements(r.Results[0])
 			_ = elems
 			c.Check(complete, "C18-R3", "GetMessages:fresh-result", r.Pos(), "the snapshot is a fresh slice built in this call", "the snapshot slice is not freshly built in the call (shared backing store)")
+			// and nothing rearranges it after it has been built in key order: the slice is only
+			// appended to, measured and returned — never handed to a call, captured or stored into
+			if why, pos := sliceOnlyAppended(r.Results[0]); why != "" {
+				c.Fail("C18-R3", "GetMessages:order-kept", pos, "refuted", "the snapshot built in key order is "+why+" before it is returned: the order of the result is no longer the order of addition")
+			} else {
+				c.OK("C18-R3", "GetMessages:order-kept", r.Pos(), "the snapshot is only appended to and returned")
+			}
 		}
 	}
 	// R4: arrival order is the order of the Add calls only if they are made one after the other:
@@ -680,4 +687,115 @@ func checkSortedKeys(c *Ctx, fn *ssa.Function, itemsF *types.Var) {
 	c.Check(ok, "C18-R3", "keys:sorted-ascending", sortCall.Pos(), "ascending sort of the complete key list dominates the return of that list",
 		"the returned key list is not the completely collected, ascending-sorted list on every path")
 	_ = P
+}
+
+// sliceOnlyAppended: the slice value v (and the local variable web it belongs to: phis, appends, re-slices,
+// a captured variable's cell) is used for nothing but append, len/cap, re-slicing and return.  Returns a
+// description and position of the first other use.
+func sliceOnlyAppended(v ssa.Value) (string, token.Pos) {
+	web := map[ssa.Value]bool{}
+	cells := map[*ssa.Alloc]bool{}
+	var add func(x ssa.Value)
+	add = func(x ssa.Value) {
+		if x == nil || web[x] {
+			return
+		}
+		switch y := x.(type) {
+		case *ssa.Const:
+			return
+		case *ssa.Phi:
+			web[x] = true
+			for _, e := range y.Edges {
+				add(e)
+			}
+		case *ssa.Call:
+			if b, ok := y.Call.Value.(*ssa.Builtin); ok && b.Name() == "append" {
+				web[x] = true
+				add(y.Call.Args[0])
+			}
+		case *ssa.Slice:
+			web[x] = true
+			add(y.X)
+		case *ssa.MakeSlice:
+			web[x] = true
+		case *ssa.UnOp:
+			if al, ok := y.X.(*ssa.Alloc); ok && y.Op == token.MUL {
+				web[x] = true
+				if !cells[al] {
+					cells[al] = true
+					for _, r := range referrers(al) {
+						if st, ok := r.(*ssa.Store); ok && st.Addr == ssa.Value(al) {
+							add(st.Val)
+						}
+						if ld, ok := r.(*ssa.UnOp); ok && ld.Op == token.MUL {
+							add(ld)
+						}
+					}
+				}
+			}
+		}
+	}
+	add(v)
+	for al := range cells {
+		for _, r := range referrers(al) {
+			switch x := r.(type) {
+			case *ssa.Store:
+				if x.Addr == ssa.Value(al) {
+					continue
+				}
+			case *ssa.UnOp:
+				if x.Op == token.MUL {
+					continue
+				}
+			case *ssa.DebugRef:
+				continue
+			case *ssa.MakeClosure:
+				return "captured by a function literal (" + x.Fn.Name() + ")", x.Pos()
+			}
+			return "used through its address", r.Pos()
+		}
+	}
+	for x := range web {
+		for _, r := range referrers(x) {
+			switch y := r.(type) {
+			case *ssa.Phi, *ssa.Return, *ssa.DebugRef, *ssa.Slice:
+				continue
+			case *ssa.Store:
+				if al, ok := y.Addr.(*ssa.Alloc); ok && cells[al] && y.Val == x {
+					continue
+				}
+				return "stored somewhere else", y.Pos()
+			case *ssa.Call:
+				if b, ok := y.Call.Value.(*ssa.Builtin); ok {
+					switch b.Name() {
+					case "len", "cap":
+						continue
+					case "append":
+						if y.Call.Args[0] == x {
+							continue
+						}
+					}
+				}
+				name := "a call"
+				if f := y.Call.StaticCallee(); f != nil {
+					name = calleeFullName(f)
+				}
+				return "handed to " + name, y.Pos()
+			case *ssa.MakeInterface:
+				// boxed for a call such as sort.Slice(result, less)
+				return "handed on as an interface value (sort.Slice and the like rearrange it)", y.Pos()
+			case *ssa.IndexAddr:
+				for _, r2 := range referrers(y) {
+					if st, ok := r2.(*ssa.Store); ok && st.Addr == ssa.Value(y) {
+						return "written element by element", st.Pos()
+					}
+				}
+				continue
+			case *ssa.Index, *ssa.Range, *ssa.Lookup:
+				continue
+			}
+			return "used in an unrecognised way", r.Pos()
+		}
+	}
+	return "", token.NoPos
 }
